@@ -1,6 +1,8 @@
 (** C13 — Cancelling a task affects only that task. (what is established so far; the theorems
     about queued and suspended targets over the pool model are added from Sched/PoolProofs) *)
-From OCV Require Import Base.Prelude Sched.Cancel.
+From OCV Require Import Base.Prelude Misc.Time Coroutine.Co Sched.Sched Sched.Pool Sched.PoolOracle.
+From OCV Require Import Sched.PoolWf Sched.PoolRun Sched.PoolProofs Sched.PoolInv Sched.PoolExample.
+From OCV Require Import Sched.Cancel.
 Open Scope Z_scope.
 
 (** cancelling a RUNNING task goes through a signal to its thread. For every history of lookups
@@ -20,5 +22,15 @@ Theorem C13_refuted_signal_hits_current_coroutine :
     c_cancelled (crun (c0 running) es) = [1%nat].
 Proof. exact cancel_hits_bystander_with_switch. Qed.
 
+(** * One pool, all well-formed histories: a task cancelled before it starts never starts (unless its
+    handle was cleaned afterwards, which withdraws the request), and its waiter finds an error *)
+Theorem C13_single_pool : forall clock cfg ops, wf_pool1 clock cfg ops = true ->
+  po_c13 (fst (self_flags clock [cfg] ops)) = true.
+Proof. exact c13_model1. Qed.
+
+Example C13_nonvacuous : wf_pool1 0 ex_cfg ex_ops = true.
+Proof. exact ex_wf. Qed.
+
 Print Assumptions C13_running_cancel_hits_target.
 Print Assumptions C13_refuted_signal_hits_current_coroutine.
+Print Assumptions C13_single_pool.
